@@ -149,14 +149,17 @@ class CollationManager(context_class_base):
             try:
                 locale.setlocale(locale.LC_COLLATE, self.lc_collate)
             except locale.Error:
-                if not self.fallback:
+                try:
+                    if not self.fallback:
+                        raise
+                    locale.setlocale(locale.LC_COLLATE, 'en_US.UTF-8')
+                except locale.Error:
+                    # neither the requested nor the fallback locale is available
                     self._current_lc_collate = None
                     _locale_collate_lock.release()
 
                     msg = f"Unsupported collation {self.collation!r}"
                     raise xpath_error('FOCH0002', msg, self.token) from None
-
-                locale.setlocale(locale.LC_COLLATE, 'en_US.UTF-8')
 
         return self
 
@@ -164,9 +167,11 @@ class CollationManager(context_class_base):
                  exc_val: Optional[BaseException],
                  exc_tb: Optional[TracebackType]) -> None:
         if self._current_lc_collate is not None:
-            locale.setlocale(locale.LC_COLLATE, self._current_lc_collate)
-            self._current_lc_collate = None
-            _locale_collate_lock.release()
+            try:
+                locale.setlocale(locale.LC_COLLATE, self._current_lc_collate)
+            finally:
+                self._current_lc_collate = None
+                _locale_collate_lock.release()
 
     def eq(self, a: Any, b: Any) -> bool:
         if not isinstance(a, str) or not isinstance(b, str):
